@@ -171,9 +171,11 @@ def stepRow (d : Defects) (sigs : Content) (room ent : Nat) (c : Cursor) (r : Da
         ({ grp := some (room, ent), daily := r.daily, hist := some hh }, some { r with hist := some hh })
       | none => ({ grp := some (room, ent), daily := r.daily, hist := r.hist }, some r)
     else if d.historySeedDropped then
+      -- the code: an unmarked row of a new group resets the cursor (the stored values are not loaded)
       ({ grp := some (room, ent), daily := none, hist := none }, some r)
     else
-      ({ grp := some (room, ent), daily := r.daily, hist := r.hist }, some r)
+      -- intended: an unmarked row that no row of its group precedes any more is the first day of the chain
+      ({ grp := some (room, ent), daily := r.daily, hist := r.daily }, some { r with hist := r.daily })
   else
     let s := sigs room ent r.day
     if s.isEmpty && !d.emptyDayRow then (c, none)
@@ -224,9 +226,16 @@ def recomputeGroup (d : Defects) (sigs : Content) (c : Cursor) (g : Group) : Cur
   else if d.lazyScan then
     let (c', out) := walkLazy d sigs g.room g.ent c g.rows
     (c', { g with rows := out })
-  else
+  else if d.historySeedDropped then
     let (c', out) := walkRows d sigs g.room g.ent c (pre.getLast?.toList ++ rest)
     (c', { g with rows := pre.dropLast ++ out })
+  else
+    -- intended: the last unmarked row before the window seeds the cursor with its stored hashes
+    let c0 : Cursor := match pre.getLast? with
+      | some s => { grp := some (g.room, g.ent), daily := s.daily, hist := s.hist }
+      | none => c
+    let (c', out) := walkRows d sigs g.room g.ent c0 rest
+    (c', { g with rows := pre ++ out })
 
 def recomputeFrom (d : Defects) (sigs : Content) : Cursor → Log → Log
   | _, [] => []
@@ -240,14 +249,17 @@ def recompute (d : Defects) (sigs : Content) (log : Log) : Log := recomputeFrom 
 
 /-- rows of a group for the given ascending non-empty days:
     `history(d₁) = daily(d₁)`, `history(dₖ₊₁) = H(history(dₖ) ++ daily(dₖ))` -/
+def nextHist (prev : Option (Hash × Option Hash)) (daily : Option Hash) : Option Hash :=
+  match prev with
+  | none => daily
+  | some (h, dl) => some (chainHash h dl)
+
 def specRowsFrom (sigs : Content) (room ent : Nat) : Option (Hash × Option Hash) → List Nat → List DayRow
   | _, [] => []
   | prev, day :: t =>
     let s := sigs room ent day
     let daily := dailyOf s
-    let hist := match prev with
-      | none => daily
-      | some (h, dl) => some (chainHash h dl)
+    let hist := nextHist prev daily
     { day, count := s.length, daily, hist, dirty := false } ::
       specRowsFrom sigs room ent (hist.map fun h => (h, daily)) t
 
